@@ -36,3 +36,13 @@ def make(name, D, N, L=3.0, dt=0.05, **kw):
 
 def has_order(name):
     return "order" in inspect.signature(classes()[name].__init__).parameters
+
+
+def flag_variants(name, single=True):
+    """non-default settings of the boolean constructor flags: each flag flipped on its own (single) or every combination"""
+    import itertools
+    sig = inspect.signature(classes()[name].__init__)
+    fl = [(p.name, p.default) for p in sig.parameters.values() if isinstance(p.default, bool)]
+    if single:
+        return [{n: (not d)} for n, d in fl]
+    return [dict(zip([n for n, _ in fl], v)) for v in itertools.product((False, True), repeat=len(fl)) if any(x != d for x, (_, d) in zip(v, fl))]
